@@ -85,6 +85,8 @@ def book_script(i):
         if r < 0.45:
             bid = rnd.random() < 0.5
             price = None if rnd.random() < 0.15 else (centre + rnd.randrange(-4, 5)) * tick
+            if rnd.random() < 0.08:      # boundary prices (on the grid): 0, one tick, the largest grid price, 2^32-1 when the tick divides it
+                price = rnd.choice([0, tick, ((2 ** 32 - 1) // tick) * tick, ((2 ** 32 - 1) // tick - 1) * tick])
             vol = rnd.randrange(1, 30); tr = rnd.randrange(100)
             oid = b.place_order(bid, vol, tr, price=price) if rnd.random() < 0.5 else b.place_order(bid, vol, tr, price)
             lines.append("O 1 %d %d %d %s" % (int(bid), vol, tr, opt(price)))
@@ -224,6 +226,8 @@ def env_script(i):
         if r < 0.5:
             bid = rnd.random() < 0.5
             price = None if rnd.random() < 0.15 else (centre + rnd.randrange(-3, 4)) * tick
+            if rnd.random() < 0.08:
+                price = rnd.choice([0, tick, ((2 ** 32 - 1) // tick) * tick, ((2 ** 32 - 1) // tick - 1) * tick])
             vol, tr = rnd.randrange(1, 20), rnd.randrange(50)
             oid = e.place_order(bid, vol, tr, price=price); e_twin.place_order(bid, vol, tr, price)
             if oid != n:
